@@ -201,8 +201,8 @@ def run(ctx):
     ctx.notes.update({"depth_all": d_all, "depth_one": d_one,
                       "queries_per_class": nq})
     if ctx.stats.get("hits_after_mutation", 0) == 0:
-        raise SystemExit("C01 self-test failed: no memo hit was observed "
-                         "after any mutation (vacuous run)")
+        raise RuntimeError("C01 self-test failed: no memo hit was observed "
+                           "after any mutation (vacuous run)")
     ctx.assumptions += [
         "the twin is built from the reference-model state that each mutator "
         "means by its documentation; combinations whose meaning is "
